@@ -214,10 +214,10 @@ func gridSources() []Src {
 		for _, b := range otherBoundaries() {
 			addInt(b, -2, -1, 0, 1, 2)
 		}
-		addInt(pow2(40), 0)                            // DESIGN: 1<<40 seconds wraps silently
-		addInt(new(big.Int).Neg(pow2(64)), 0)          // -2^64
-		addInt(big.NewInt(1000), 0)                    // an unremarkable number with a short exponent form
-		addInt(big.NewInt(16777217), 0)                // 2^24+1: not a float32
+		addInt(pow2(40), 0)                             // DESIGN: 1<<40 seconds wraps silently
+		addInt(new(big.Int).Neg(pow2(64)), 0)           // -2^64
+		addInt(big.NewInt(1000), 0)                     // an unremarkable number with a short exponent form
+		addInt(big.NewInt(16777217), 0)                 // 2^24+1: not a float32
 		addInt(new(big.Int).Add(pow2(60), pow2(36)), 1) // double rounding int64 -> float64 -> float32
 		for _, n := range ints {
 			add(intSources(n)...)
